@@ -36,9 +36,9 @@ var solvers = []solverSpec{
 	}},
 }
 
-func runSolver(sp solverSpec, file string, timeoutS int) (string, string, float64) {
+func runSolverCtx(parent context.Context, sp solverSpec, file string, timeoutS int) (string, string, float64) {
 	args := sp.args(file, timeoutS)
-	ctx, cancel := context.WithTimeout(context.Background(), time.Duration(timeoutS+2)*time.Second)
+	ctx, cancel := context.WithTimeout(parent, time.Duration(timeoutS+2)*time.Second)
 	defer cancel()
 	cmd := exec.CommandContext(ctx, args[0], args[1:]...)
 	var out bytes.Buffer
@@ -55,10 +55,52 @@ func runSolver(sp solverSpec, file string, timeoutS int) (string, string, float6
 	case "timeout":
 		return "timeout", o, el
 	}
+	if parent.Err() != nil {
+		return "cancelled", o, el
+	}
 	if ctx.Err() != nil || strings.Contains(o, "timeout") || strings.Contains(o, "interrupted") {
 		return "timeout", o, el
 	}
 	return "error", o, el
+}
+
+func runSolver(sp solverSpec, file string, timeoutS int) (string, string, float64) {
+	return runSolverCtx(context.Background(), sp, file, timeoutS)
+}
+
+type raceResult struct {
+	name, answer, out string
+	el                float64
+}
+
+// race runs several solvers concurrently on the same file and returns the first decided answer.
+func race(sps []solverSpec, file string, timeoutS int) (best raceResult, all []raceResult) {
+	ctx, cancel := context.WithCancel(context.Background())
+	defer cancel()
+	ch := make(chan raceResult, len(sps))
+	for _, sp := range sps {
+		sp := sp
+		go func() {
+			a, o, el := runSolverCtx(ctx, sp, file, timeoutS)
+			ch <- raceResult{sp.name, a, o, el}
+		}()
+	}
+	got := 0
+	for got < len(sps) {
+		r := <-ch
+		got++
+		if r.answer != "cancelled" {
+			all = append(all, r)
+		}
+		if r.answer == "unsat" || r.answer == "sat" {
+			cancel()
+			return r, all
+		}
+		if best.name == "" || best.answer == "cancelled" {
+			best = r
+		}
+	}
+	return best, all
 }
 
 type Solver struct {
@@ -91,29 +133,35 @@ func (sv *Solver) solve(name, script string, modelTerms []string, wantSat bool) 
 	full := script + "(check-sat)\n"
 	os.WriteFile(file, []byte(full), 0o644)
 	res := &SolveResult{}
-	decided := func(a string) bool { return a == "unsat" || a == "sat" }
-	// stage 1: z3-new with the quick timeout; stage 2: the others; stage 3: all with the long timeout
-	stages := []struct {
-		sp solverSpec
-		t  int
-	}{{solvers[0], sv.quickT}, {solvers[2], sv.quickT}, {solvers[1], sv.quickT}, {solvers[0], sv.longT}, {solvers[2], sv.longT}}
+	record := func(rs []raceResult) {
+		for _, r := range rs {
+			res.Tried = append(res.Tried, fmt.Sprintf("%s:%s:%.2fs", r.name, r.answer, r.el))
+			sv.mu.Lock()
+			sv.totalS += r.el
+			sv.queries++
+			sv.mu.Unlock()
+		}
+	}
 	if wantSat {
 		// vacuity guards: a short attempt is enough (unsat is what matters, and it is found quickly)
-		stages = []struct {
-			sp solverSpec
-			t  int
-		}{{solvers[0], 3}}
-	}
-	for _, st := range stages {
-		a, o, el := runSolver(st.sp, file, st.t)
-		res.Tried = append(res.Tried, fmt.Sprintf("%s:%s:%.2fs", st.sp.name, a, el))
-		sv.mu.Lock()
-		sv.totalS += el
-		sv.queries++
-		sv.mu.Unlock()
-		res.Answer, res.Solver, res.Seconds, res.Output = a, st.sp.name, el, truncate(o, 2000)
-		if decided(a) {
-			break
+		a, o, el := runSolver(solvers[0], file, 1)
+		record([]raceResult{{solvers[0].name, a, o, el}})
+		res.Answer, res.Solver, res.Seconds, res.Output = a, solvers[0].name, el, truncate(o, 2000)
+	} else {
+		// stage 1: z3-new alone, 2 s (most queries end here); stage 2: race all three with the quick timeout;
+		// stage 3: race z3-new and cvc5 with the long timeout
+		a, o, el := runSolver(solvers[0], file, 2)
+		record([]raceResult{{solvers[0].name, a, o, el}})
+		res.Answer, res.Solver, res.Seconds, res.Output = a, solvers[0].name, el, truncate(o, 2000)
+		if a != "unsat" && a != "sat" {
+			best, all := race(solvers, file, sv.quickT)
+			record(all)
+			res.Answer, res.Solver, res.Seconds, res.Output = best.answer, best.name, res.Seconds+best.el, truncate(best.out, 2000)
+			if best.answer != "unsat" && best.answer != "sat" {
+				best, all = race([]solverSpec{solvers[0], solvers[2]}, file, sv.longT)
+				record(all)
+				res.Answer, res.Solver, res.Seconds, res.Output = best.answer, best.name, res.Seconds+best.el, truncate(best.out, 2000)
+			}
 		}
 	}
 	sv.mu.Lock()
